@@ -25,40 +25,43 @@ C19SClauses(c) ==
   LET S0 == DecState(c.st)
       S  == [S0 EXCEPT !.E = TLCEval(S0.E)]
       mx == c.mx
-      szs == Rng(c.sizes)
+      J  == DOMAIN c.sizes                       \* the returned tables, by position
+      T(j) == c.sizes[j]
       tsz == TLCEval(TestedSizes(S, mx))
       Good0(s) == /\ s.n \in tsz
                   /\ {RK(r) : r \in Rng(s.rows)} = TestedOf(S, mx, s.n)
                   /\ Len(s.rows) = Cardinality(TestedOf(S, mx, s.n))
-      good == TLCEval([s \in szs |-> Good0(s)])
-      Good(s) == good[s]
-      exr == TLCEval([s \in szs |-> ExactRegime(Nocc(S, s.n), s.n)])
-      Ex(s) == exr[s]
-      kb == TLCEval([s \in szs |-> IF Good(s) THEN [r \in Rng(s.rows) |-> <<KBag(S, RK(r)), Wt(S, RK(r))>>] ELSE <<>>])
+      good == TLCEval([j \in J |-> Good0(T(j))])
+      Good(j) == good[j]
+      exr == TLCEval([j \in J |-> ExactRegime(Nocc(S, T(j).n), T(j).n)])
+      Ex(j) == exr[j]
+      \* per row: <<bag of the K_i, weight>>
+      kb == TLCEval([j \in J |-> IF Good(j) THEN TLCEval([i \in DOMAIN T(j).rows |->
+                                       <<KBag(S, RK(T(j).rows[i])), Wt(S, RK(T(j).rows[i]))>>]) ELSE <<>>])
   IN IF ~c.ok THEN {<<"svh_returns", FALSE>>} ELSE
-     {<<"svh_tested_sizes", {s.n : s \in szs} = tsz /\ Len(c.sizes) = Cardinality(tsz)>>,
+     {<<"svh_tested_sizes", {T(j).n : j \in J} = tsz /\ Len(c.sizes) = Cardinality(tsz)>>,
       <<"svh_every_hyperedge_once_under_its_size",
-        \A s \in szs : s.n \in tsz =>
-            /\ Good(s)
-            /\ \A r \in Rng(s.rows) : Len(r.e) = s.n /\ Cardinality(Rng(r.e)) = s.n>>,
-      <<"svh_harness_regime_agrees", \A s \in szs : Good(s) => (s.exact = Ex(s))>>,
+        \A j \in J : T(j).n \in tsz =>
+            /\ Good(j)
+            /\ \A r \in Rng(T(j).rows) : Len(r.e) = T(j).n /\ Cardinality(Rng(r.e)) = T(j).n>>,
+      <<"svh_harness_regime_agrees", \A j \in J : Good(j) => (T(j).exact = Ex(j))>>,
       <<"svh_pvalue_is_binomial_tail",
-        \A s \in szs : (Good(s) /\ Ex(s) /\ s.exact) =>
-            /\ s.den = PDen(S, s.n)
-            /\ \A r \in Rng(s.rows) : r.pok /\ r.pnum = PNum(S, RK(r))>>,
+        \A j \in J : (Good(j) /\ Ex(j) /\ T(j).exact) =>
+            /\ T(j).den = PDen(S, T(j).n)
+            /\ \A r \in Rng(T(j).rows) : r.pok /\ r.pnum = PNum(S, RK(r))>>,
       <<"svh_validated_iff_below_threshold",
-        \A s \in szs : (Good(s) /\ Ex(s) /\ s.exact) =>
-            LET P == TLCEval(PValues(S, mx, s.n))  M == InvLevel(S, mx, s.n)
-            IN ~OnALevel(P, M) => {RK(r) : r \in {x \in Rng(s.rows) : x.fdr}} = StepUpValidated(P, M)>>,
+        \A j \in J : (Good(j) /\ Ex(j) /\ T(j).exact) =>
+            LET P == TLCEval(PValues(S, mx, T(j).n))  M == InvLevel(S, mx, T(j).n)
+            IN ~OnALevel(P, M) => {RK(r) : r \in {x \in Rng(T(j).rows) : x.fdr}} = StepUpValidated(P, M)>>,
       <<"svh_validated_is_lower_set",
-        \A s \in szs : \A r1, r2 \in Rng(s.rows) : (r1.fdr /\ ~r2.fdr) => r2.rank >= r1.rank>>,
+        \A j \in J : \A r1, r2 \in Rng(T(j).rows) : (r1.fdr /\ ~r2.fdr) => r2.rank >= r1.rank>>,
       <<"svh_pvalue_depends_on_parameters_only",
-        \A s \in szs : Good(s) => \A r1, r2 \in Rng(s.rows) :
-            (kb[s][r1][1] = kb[s][r2][1]) =>
-                /\ (kb[s][r1][2] = kb[s][r2][2] => r1.rank = r2.rank)
-                /\ (kb[s][r1][2] < kb[s][r2][2] => r1.rank >= r2.rank)>>,
-      <<"emit", \A s \in szs : (Good(s) /\ ~Ex(s)) =>
-            PrintT("PAR " \o ToJson([id |-> c.id, n |-> s.n, par |-> Params(S, mx, s.n)]))>>}
+        \A j \in J : Good(j) => \A i1, i2 \in DOMAIN T(j).rows :
+            (kb[j][i1][1] = kb[j][i2][1]) =>
+                /\ (kb[j][i1][2] = kb[j][i2][2] => T(j).rows[i1].rank = T(j).rows[i2].rank)
+                /\ (kb[j][i1][2] < kb[j][i2][2] => T(j).rows[i1].rank >= T(j).rows[i2].rank)>>,
+      <<"emit", \A j \in J : (Good(j) /\ ~Ex(j)) =>
+            PrintT("PAR " \o ToJson([id |-> c.id, n |-> T(j).n, par |-> Params(S, mx, T(j).n)]))>>}
 
 R == INSTANCE CaseRunner WITH Clauses <- C19SClauses
 TInit == R!CInit
